@@ -209,11 +209,115 @@ the start node to the last one (each followed by its coupling iterations and, wi
 the database write), end-of-cycle; the halting cycle contributes only its beginning-of-cycle;
 then end-of-life once.  No hypothesis: holds for every configuration, including restart points
 beyond the last node/cycle, zero burn steps, empty stacks. -/
-theorem run_shape (cfg : Config) : run cfg = spec cfg := by
-  unfold run
+theorem run_shape (cfg : Config) : runPreset cfg = spec cfg := by
+  unfold runPreset afterBOL
   simp only []
   rw [mainLoop_eq cfg _ _ _ (Nat.le_refl _) (fun _ => rfl)]
   simp [spec, loopSpec, endState, fullCycles, haltCycle, cycleRange, interactAll, calls]
+
+/-! ## Restart points set during beginning-of-life -/
+
+/-- the schedule after beginning-of-life, for the time state beginning-of-life left -/
+def specAfterBOL (cfg : Config) : List Event :=
+  (fullCycles cfg).flatMap (specCycle cfg)
+    ++ ((match haltCycle cfg with | some h => specBOC cfg h | none => [])
+    ++ calls .EOL (active cfg .EOL [] 0) [] (endState cfg).1 (endState cfg).2)
+
+theorem afterBOL_shape (cfg : Config) : afterBOL cfg = specAfterBOL cfg := by
+  have h := run_shape cfg
+  unfold runPreset spec at h
+  rw [List.append_assoc, List.append_assoc] at h
+  exact List.append_cancel_left h
+
+private theorem bolPhase_fixed (cfg : Config) (nm c n : Nat) (h : cfg.bolSet = some (nm, c, n)) (act : List Iface) :
+    bolPhase cfg act ⟨c, n⟩ = (calls .BOL act [] c n, ⟨c, n⟩) := by
+  induction act with
+  | nil => rfl
+  | cons i rest ih =>
+    have he : bolEffect cfg i ⟨c, n⟩ = ⟨c, n⟩ := by
+      unfold bolEffect; rw [h]; simp only []; split <;> rfl
+    simp only [bolPhase, he, ih, calls, List.map_cons]
+
+/-- **every interface active at beginning-of-life is called once, in order**, whatever a hook does
+to the time state -/
+theorem bolPhase_calls (cfg : Config) (act : List Iface) (s : RState) :
+    (bolPhase cfg act s).1.map (fun e => (e.hook, e.iface, e.args)) = act.map (fun i => (Hook.BOL, i.name, [])) := by
+  induction act generalizing s with
+  | nil => rfl
+  | cons i rest ih => simp only [bolPhase, List.map_cons, ih]
+
+/-- **what each beginning-of-life hook sees**: the interfaces up to and including the one that sets
+the restart point see the time state on entry, the ones after it see the restart point -/
+theorem bolPhase_sees (cfg : Config) (nm c n : Nat) (h : cfg.bolSet = some (nm, c, n))
+    (pre post : List Iface) (i : Iface) (hi : i.name = nm) (hpre : ∀ x ∈ pre, x.name ≠ nm) (s : RState) :
+    bolPhase cfg (pre ++ i :: post) s =
+      (calls .BOL (pre ++ [i]) [] s.rc s.rn ++ calls .BOL post [] c n, ⟨c, n⟩) := by
+  induction pre with
+  | nil =>
+    have he : bolEffect cfg i s = ⟨c, n⟩ := by
+      unfold bolEffect; rw [h]; simp [hi]
+    simp only [List.nil_append, bolPhase, he, bolPhase_fixed cfg nm c n h, calls, List.map_cons, List.map_nil,
+      List.cons_append]
+  | cons x rest ih =>
+    have he : bolEffect cfg x s = s := by
+      unfold bolEffect; rw [h]; simp [hpre x (by simp)]
+    simp only [List.cons_append, bolPhase, he, ih (fun y hy => hpre y (by simp [hy])), calls, List.map_cons]
+
+/-- without a hook that sets the time state, beginning-of-life is the plain group of calls -/
+theorem bolPhase_preset (cfg : Config) (h : cfg.bolSet = none) (act : List Iface) (s : RState) :
+    bolPhase cfg act s = (calls .BOL act [] s.rc s.rn, s) := by
+  induction act with
+  | nil => rfl
+  | cons i rest ih =>
+    have he : bolEffect cfg i s = s := by unfold bolEffect; rw [h]
+    simp only [bolPhase, he, ih, calls, List.map_cons]
+
+/-- the time state beginning-of-life leaves: the restart point if the setting interface is active at
+BOL, else the state on entry -/
+theorem bolPhase_state (cfg : Config) (nm c n : Nat) (h : cfg.bolSet = some (nm, c, n)) (act : List Iface) (s : RState) :
+    (bolPhase cfg act s).2 = if act.any (fun i => i.name == nm) then ⟨c, n⟩ else s := by
+  induction act generalizing s with
+  | nil => rfl
+  | cons i rest ih =>
+    simp only [bolPhase, List.any_cons]
+    rw [ih]
+    by_cases hi : i.name = nm
+    · have he : bolEffect cfg i s = ⟨c, n⟩ := by unfold bolEffect; rw [h]; simp [hi]
+      simp [he, hi]
+    · have he : bolEffect cfg i s = s := by unfold bolEffect; rw [h]; simp [hi]
+      simp [he, hi]
+
+/-- **run_shape, restart point set inside beginning-of-life included**: the run is the beginning-of-life
+calls followed by the declarative schedule for the time state beginning-of-life LEFT — the cycle
+loop starts at the (cycle, node) a BOL hook assigned, not at the one found on entry -/
+theorem run_shape_restart (cfg : Config) :
+    run cfg = (bolPhase cfg (active cfg .BOL [] 0) ⟨cfg.startCycle, cfg.startNode⟩).1
+      ++ specAfterBOL (restarted cfg) := by
+  unfold run
+  rw [afterBOL_shape]
+
+/-- a restart point (c, n) assigned by an interface active at BOL: the loop then starts with the
+beginning-of-cycle of cycle c and its nodes from n; nothing else of the configuration changes -/
+theorem restart_in_BOL (cfg : Config) (nm c n : Nat) (h : cfg.bolSet = some (nm, c, n))
+    (hact : (active cfg .BOL [] 0).any (fun i => i.name == nm) = true) :
+    (restarted cfg).startCycle = c ∧ (restarted cfg).startNode = n
+    ∧ firstNode (restarted cfg) c = n
+    ∧ cycleRange (restarted cfg) = List.range' c (cfg.nCycles - c)
+    ∧ (restarted cfg).stack = cfg.stack ∧ (restarted cfg).burnSteps = cfg.burnSteps := by
+  have hs := bolPhase_state cfg nm c n h (active cfg .BOL [] 0) ⟨cfg.startCycle, cfg.startNode⟩
+  rw [hact] at hs
+  simp only [if_true] at hs
+  have h1 : (restarted cfg).startCycle = c := by unfold restarted; simp only [hs]
+  have h2 : (restarted cfg).startNode = n := by unfold restarted; simp only [hs]
+  refine ⟨h1, h2, ?_, ?_, rfl, rfl⟩
+  · unfold firstNode; rw [h1, h2]; simp
+  · unfold cycleRange; rw [h1]; rfl
+
+/-- with the restart point already set on entry the run is the one described by `run_shape` -/
+theorem run_preset (cfg : Config) (h : cfg.bolSet = none) : run cfg = runPreset cfg := by
+  unfold run runPreset restarted
+  simp only [bolPhase_preset cfg h]
+  rfl
 
 /-! ## Which interfaces are called, and in which order -/
 
@@ -289,11 +393,11 @@ def exCfg : Config where
 
 example : (active exCfg .EOL [] 0).map (·.name) = [2, 0, 3, 1] := by decide
 example : (active exCfg .BOL [] 0).map (·.name) = [1, 3, 4, 0] := by decide
-example : (run exCfg).length = 63 := by decide
+example : (runPreset exCfg).length = 63 := by decide
 
 /-- **arguments reflect the time state**: every BOC / EOC call receives `r.p.cycle`, every
 EveryNode call receives `(r.p.cycle, r.p.timeNode)` -/
-theorem args_reflect_state (cfg : Config) (e : Event) (he : e ∈ run cfg) :
+theorem args_reflect_state (cfg : Config) (e : Event) (he : e ∈ runPreset cfg) :
     (e.hook = .EveryNode → e.args = [e.rc, e.rn])
     ∧ ((e.hook = .BOC ∨ e.hook = .EOC) → e.args = [e.rc])
     ∧ ((e.hook = .BOL ∨ e.hook = .EOL) → e.args = []) := by
@@ -340,7 +444,7 @@ private theorem filter_calls (h h' : Hook) (ids : List Iface) (args : List Nat) 
 /-- **the EveryNode calls of a run are exactly: for each visited node in order, one call per active
 interface, with (cycle, node) as arguments and as the reactor's time state** -/
 theorem everyNode_calls (cfg : Config) :
-    (run cfg).filter (fun e => e.hook = .EveryNode) =
+    (runPreset cfg).filter (fun e => e.hook = .EveryNode) =
       (visitedNodes cfg).flatMap (fun p => calls .EveryNode (active cfg .EveryNode [] 0) [p.1, p.2] p.1 p.2) := by
   rw [run_shape]
   have hcoup : ∀ c n, (specCoupling cfg c n).filter (fun e => e.hook = .EveryNode) = [] := by
@@ -419,6 +523,13 @@ theorem fullCycles_range (cfg : Config) :
 
 example : visitedNodes exCfg = [(0, 1), (0, 2), (1, 0), (1, 1)] := by decide
 
+/-- interface 3's BOL hook sets the restart point (1, 1): the interfaces after it see it, and the loop starts there -/
+example : ((run { exCfg with bolSet := some (3, 1, 1) }).filter (fun e => e.hook = .BOL)).map (fun e => (e.iface, e.rc, e.rn))
+      = [(1, 0, 1), (3, 0, 1), (4, 1, 1), (0, 1, 1)]
+    ∧ visitedNodes (restarted { exCfg with bolSet := some (3, 1, 1) }) = [(1, 1)] := by
+  decide
+
+
 /-! ## Halting -/
 
 /-- **a halt request at beginning-of-cycle stops the loop and end-of-life still runs**: if `h` is
@@ -426,7 +537,7 @@ the first cycle whose BOC returns a truthy value, the run is BOL, the complete c
 the BOC calls of `h` (all of them — every active interface is still called), and EOL. -/
 theorem halt_stops_and_EOL (cfg : Config) (h : Nat) (h1 : cfg.startCycle ≤ h) (h2 : h < cfg.nCycles)
     (hh : haltsAt cfg h = true) (hbefore : ∀ c, cfg.startCycle ≤ c → c < h → haltsAt cfg c = false) :
-    run cfg = calls .BOL (active cfg .BOL [] 0) [] cfg.startCycle cfg.startNode
+    runPreset cfg = calls .BOL (active cfg .BOL [] 0) [] cfg.startCycle cfg.startNode
       ++ (List.range' cfg.startCycle (h - cfg.startCycle)).flatMap (specCycle cfg)
       ++ specBOC cfg h
       ++ calls .EOL (active cfg .EOL [] 0) [] h (firstNode cfg h) := by
